@@ -284,6 +284,19 @@ def run(ctx):
             if rnd.random() < 0.4:
                 t = (rnd.choice(NAMES), [(rnd.choice(NAMES), []), t])
             ctx.count("gen:combs")
+        elif rnd.random() < 0.03:
+            # many bracket pairs in one name: a run of parameterised
+            # members, or a chain of single-parameter types, around 2^8
+            n = rnd.choice([200, 255, 256, 257, 258, 300])
+            if rnd.random() < 0.5:
+                t = (rnd.choice(NAMES), [
+                    (rnd.choice(NAMES), [(rnd.choice(NAMES), [])])
+                    for _ in range(n)])
+            else:
+                t = (rnd.choice(NAMES), [])
+                for _ in range(n):
+                    t = (rnd.choice(NAMES), [t])
+            ctx.count("gen:many_brackets")
         s = reftypes.show(t)
         case.ops = [{"input": s}]
         ctx.count("cases")
